@@ -76,9 +76,10 @@ theorem newDataLoop_budget (h : Header) (views : List SegView) (v : VSock) (c : 
   | cons item rest ih =>
     unfold newDataLoop at hl
     split at hl
-    · simp only [pure, Except.pure, Except.ok.injEq, Prod.mk.injEq] at hl
-      obtain ⟨rfl, rfl, _⟩ := hl
-      exact ⟨by omega, rfl⟩
+    · split at hl <;>
+      · simp only [pure, Except.pure, Except.ok.injEq, Prod.mk.injEq] at hl
+        obtain ⟨rfl, rfl, _⟩ := hl
+        exact ⟨by omega, rfl⟩
     · rename_i hfit
       have hp := hpos item (by simp)
       split at hl
@@ -111,8 +112,10 @@ theorem zero_window_sends_nothing (h : Header) (views : List SegView) (v : VSock
       unfold newDataLoop at hl
       have hp := hpos item (by simp)
       have : (min w 0 - flight : Nat) < item.seg.payloadSize := by omega
-      simp only [this, if_true, pure, Except.pure, Except.ok.injEq, Prod.mk.injEq] at hl
-      obtain ⟨_, rfl, _⟩ := hl; exact Nat.le_refl _
+      simp only [this, if_true] at hl
+      split at hl <;>
+      · simp only [pure, Except.pure, Except.ok.injEq, Prod.mk.injEq] at hl
+        obtain ⟨_, rfl, _⟩ := hl; exact Nat.le_refl _
   omega
 
 /-- The budget formula itself (stream_dispatch.rs:562-573): outside recovery it is
@@ -245,9 +248,10 @@ theorem newDataLoop_bytes (h : Header) (views : List SegView) (v : VSock) (c : C
   | cons item rest ih =>
     unfold newDataLoop at hl
     split at hl
-    · simp only [pure, Except.pure, Except.ok.injEq, Prod.mk.injEq] at hl
-      obtain ⟨_, rfl, _⟩ := hl
-      exact ⟨[], by simp, by simp⟩
+    · split at hl <;>
+      · simp only [pure, Except.pure, Except.ok.injEq, Prod.mk.injEq] at hl
+        obtain ⟨_, rfl, _⟩ := hl
+        exact ⟨[], by simp, by simp⟩
     · rename_i hfit
       split at hl
       · simp at hl
@@ -317,11 +321,21 @@ theorem first_transmissions_within_peer_window (v : VSock) (c : Ctx) (v' : VSock
         have := newDataLoop_sentPayload _ _ _ _ _ _ _ _ hl
         have e : sentPayload c c1 = sentPayload { c with cc := (c.cc.read "window").snd } c1 := rfl
         split at hs
-        · simp [throw, throwThe, MonadExceptOf.throw] at hs
-        · simp only [Except.ok.injEq, Prod.mk.injEq] at hs
-          obtain ⟨_, rfl⟩ := hs
-          rw [e]; omega
-        · simp [throw, throwThe, MonadExceptOf.throw] at hs
+        · -- the probe did not fit with nothing in flight: popped, nothing more sent
+          split at hs
+          · simp [throw, throwThe, MonadExceptOf.throw] at hs
+          · simp only [Except.ok.injEq, Prod.mk.injEq] at hs
+            obtain ⟨_, rfl⟩ := hs
+            rw [e]; omega
+          · simp only [Except.ok.injEq, Prod.mk.injEq] at hs
+            obtain ⟨_, rfl⟩ := hs
+            rw [e]; omega
+        · split at hs
+          · simp [throw, throwThe, MonadExceptOf.throw] at hs
+          · simp only [Except.ok.injEq, Prod.mk.injEq] at hs
+            obtain ⟨_, rfl⟩ := hs
+            rw [e]; omega
+          · simp [throw, throwThe, MonadExceptOf.throw] at hs
 /-- **Loss recovery is paced by the pipe** (rfc6675 §5 step C): apart from the single retransmission that
 entering recovery triggers (`total_retransmitted_segments = 0`), the recovery loop retransmits only while the
 window left over the pipe estimate exceeds one segment, and charges every retransmission to it; with segments of
